@@ -30,7 +30,7 @@ const shimBase = modPath + "/internal/zzverif/"
 // packages whose sources are rewritten (relative to the module root; "" is the root package)
 var rewriteSet = []string{"", "internal/recovery", "internal/queue", "internal/dissolve", "internal/timers",
 	"internal/memstream", "internal/bpool", "internal/priority", "internal/epoch", "internal/saferand",
-	"internal/cancelctx", "internal/nowtime"}
+	"internal/cancelctx", "internal/nowtime", "internal/redispartition"}
 
 var importMap = map[string][2]string{ // original path -> shim package, default name
 	"sync":        {"vsync", "sync"},
@@ -118,6 +118,14 @@ func main() {
 		return err
 	}))
 
+	// stub so that harness files calling ZZVerifResetGlobals type-check; the real body is generated
+	// after loading (it needs the type information)
+	for rel := range resetSet {
+		dirs, _ := filepath.Glob(filepath.Join(*repo, rel, "*.go"))
+		pkgName := filepath.Base(rel)
+		_ = dirs
+		loadOverlay[filepath.Join(*repo, rel, "zz_verif_resetglobals.go")] = []byte("//go:build verif\n\npackage " + pkgName + "\n\nfunc ZZVerifResetGlobals() {}\n")
+	}
 	var patterns []string
 	for _, r := range rewriteSet {
 		patterns = append(patterns, "./"+r)
@@ -144,12 +152,31 @@ func main() {
 	}
 	stats := map[string]int{}
 	for _, p := range pkgs {
+		loud := loudGlobals(p)
+		if len(loud) > 0 {
+			var names []string
+			for v := range loud {
+				names = append(names, v.Name())
+			}
+			sort.Strings(names)
+			fmt.Fprintf(os.Stderr, "loud globals %s: %s\n", p.PkgPath, strings.Join(names, " "))
+		}
+		relPkg := strings.TrimPrefix(strings.TrimPrefix(p.PkgPath, modPath), "/")
+		if resetSet[relPkg] {
+			dst := filepath.Join(*out, relPkg, "zz_verif_resetglobals.go")
+			must(os.MkdirAll(filepath.Dir(dst), 0o755))
+			must(os.WriteFile(dst, resetGlobalsFile(p), 0o644))
+			overlay[filepath.Join(*repo, relPkg, "zz_verif_resetglobals.go")] = dst
+		}
 		for i, f := range p.Syntax {
 			name := p.CompiledGoFiles[i]
-			if strings.HasSuffix(name, "_test.go") {
+			if strings.HasSuffix(name, "_test.go") || filepath.Base(name) == "zz_verif_resetglobals.go" {
 				continue
 			}
 			rw := &rewriter{pkg: p, file: f, fset: p.Fset, stats: stats}
+			if !isHarnessFile(name) {
+				stats["globalpoint"] += rw.instrumentGlobals(loud)
+			}
 			rw.rewrite()
 			var buf bytes.Buffer
 			must((&printer.Config{Mode: printer.UseSpaces | printer.TabIndent, Tabwidth: 8}).Fprint(&buf, p.Fset, f))
